@@ -5,7 +5,7 @@ Import ListNotations.
 
 Definition newf (t : nat) := mkF (Full New) t.
 Definition with_imm (s : fs) (l : list fstate) : fs :=
-  mkFs (f_env s) (f_deps s) (f_cache s) (f_build s) (f_stamp s) (f_compdb s) l.
+  mkFs (f_env s) (f_deps s) (f_cache s) (f_build s) (f_stamp s) (f_compdb s) l (f_tmp s).
 Definition stamp0 (p : proj) := if 0 <? n_imm p then oldf else absent.
 
 (* ---------------------------------------------------------------- basics *)
@@ -65,20 +65,21 @@ Proof.
 Qed.
 
 (* the state after an uninterrupted run, from any state *)
-Lemma run_result : forall cal p t s, length (f_imm s) = n_imm p ->
-  apply_ops t (run_ops cal p) s =
+Lemma run_result : forall v p t s, length (f_imm s) = n_imm p ->
+  apply_ops t (run_ops v p) s =
   mkFs (newf t) (if uses_find p then newf t else f_deps s) (if uses_find p then newf t else absent) (newf t)
-       (f_stamp s) (if has_compdb p then newf t else f_compdb s) (repeat (newf t) (n_imm p)).
+       (f_stamp s) (if has_compdb p then newf t else f_compdb s) (repeat (newf t) (n_imm p))
+       (if uses_find p && adeps v then absent else f_tmp s).
 Proof.
-  intros cal p t s Hl. unfold run_ops, pre_ops.
-  destruct cal; repeat rewrite apply_ops_app;
+  intros [c a d] p t s Hl. unfold run_ops, pre_ops. cbn [cal].
+  destruct c; repeat rewrite apply_ops_app;
   (rewrite (imm_from_full t (n_imm p) 0 _ [] (f_imm s)); [| reflexivity | reflexivity | exact Hl]);
-  unfold deps_ops, cache_ops, compdb_ops; destruct (uses_find p), (has_compdb p); reflexivity.
+  unfold deps_ops, cache_ops, compdb_ops; cbn [adeps]; destruct (uses_find p), (has_compdb p), a; reflexivity.
 Qed.
 
 Lemma skip_result : forall p t s, length (f_imm s) = n_imm p ->
   apply_ops t (skip_ops p) s =
-  mkFs (newf t) (f_deps s) (f_cache s) (touch t (f_build s)) (f_stamp s) (f_compdb s) (map (touch t) (f_imm s)).
+  mkFs (newf t) (f_deps s) (f_cache s) (touch t (f_build s)) (f_stamp s) (f_compdb s) (map (touch t) (f_imm s)) (f_tmp s).
 Proof.
   intros p t s Hl. unfold skip_ops. rewrite apply_ops_app.
   change (Utime FBuild :: utimes_from 0 (n_imm p)) with ([Utime FBuild] ++ utimes_from 0 (n_imm p)).
@@ -125,24 +126,27 @@ Proof. intros [c m]. destruct c as [| |[|]]; simpl; auto. Qed.
 
 (* ---------------------------------------------------------------- a raise before the build file is opened *)
 Definition nobuild (o : fsop) : Prop :=
-  match o with Open FBuild | WriteClose FBuild | Remove FBuild | Utime FBuild => False | _ => True end.
+  match o with
+  | Open FBuild | WriteClose FBuild | Remove FBuild | Utime FBuild | Rename FBuild _ | Rename _ FBuild => False
+  | _ => True
+  end.
 
 Lemma nobuild_frame : forall t l s, Forall nobuild l -> f_build (apply_ops t l s) = f_build s.
 Proof.
   induction l; intros s H; simpl; [reflexivity|]. inversion H; subst.
   change (fold_left (apply_op t) l ?a) with (apply_ops t l a). rewrite IHl by assumption.
-  destruct a as [f|f|f|f|d]; try reflexivity; destruct f; simpl in *; try reflexivity; contradiction.
+  destruct a as [f|f|f|f|d|f g]; try reflexivity; destruct f; try destruct g; simpl in *; try reflexivity; contradiction.
 Qed.
 
 Lemma nobuild_imm : forall n k, Forall nobuild (imm_from k n).
 Proof. induction n; intros; simpl; repeat constructor; auto. Qed.
 
-Lemma nobuild_pre : forall p, Forall nobuild (pre_ops p).
+Lemma nobuild_pre : forall v p, Forall nobuild (pre_ops v p).
 Proof.
-  intros p. unfold pre_ops, deps_ops, cache_ops.
+  intros v p. unfold pre_ops, deps_ops, cache_ops.
   apply Forall_app; split; [repeat constructor|].
   apply Forall_app; split; [apply nobuild_imm|].
-  apply Forall_app; split; destruct (uses_find p); repeat constructor.
+  apply Forall_app; split; destruct (uses_find p); try destruct (adeps v); repeat constructor.
 Qed.
 
 Lemma until_insert : forall l j, until_raise (insert_raise j l) = firstn j l.
@@ -150,23 +154,27 @@ Proof.
   induction l; intros j; destruct j; simpl; auto. now rewrite IHl.
 Qed.
 
-Lemma raise_untouched : forall p j t s, j <= length (pre_ops p) ->
-  f_build (apply_ops t (until_raise (run_events p j)) s) = f_build s.
+Lemma raise_untouched : forall v p j t s, j <= length (pre_ops v p) ->
+  f_build (apply_ops t (until_raise (run_events v p j)) s) = f_build s.
 Proof.
-  intros p j t s Hj. unfold run_events, run_ops. rewrite until_insert, firstn_app.
-  replace (j - length (pre_ops p)) with 0 by lia. rewrite firstn_O, app_nil_r.
+  intros v p j t s Hj. unfold run_events, run_ops. cbn [cal].
+  change (pre_ops (mkV false (adeps v) (dnc v)) p) with (pre_ops v p).
+  rewrite until_insert, firstn_app.
+  replace (j - length (pre_ops v p)) with 0 by lia. rewrite firstn_O, app_nil_r.
   apply nobuild_frame, Forall_firstn, nobuild_pre.
 Qed.
 
 (* the mutations performed before the exception never name the build file *)
-Lemma raise_ops_nobuild : forall p j, j <= length (pre_ops p) -> Forall nobuild (until_raise (run_events p j)).
+Lemma raise_ops_nobuild : forall v p j, j <= length (pre_ops v p) -> Forall nobuild (until_raise (run_events v p j)).
 Proof.
-  intros p j Hj. unfold run_events, run_ops. rewrite until_insert, firstn_app.
-  replace (j - length (pre_ops p)) with 0 by lia. rewrite firstn_O, app_nil_r.
+  intros v p j Hj. unfold run_events, run_ops. cbn [cal].
+  change (pre_ops (mkV false (adeps v) (dnc v)) p) with (pre_ops v p).
+  rewrite until_insert, firstn_app.
+  replace (j - length (pre_ops v p)) with 0 by lia. rewrite firstn_O, app_nil_r.
   apply Forall_firstn, nobuild_pre.
 Qed.
 
 (* ---------------------------------------------------------------- empty / missing build file *)
-Lemma truncated_detected : forall cal p e t s, is_full (f_build s) = false ->
-  make_attempt cal p e t s = (false, s, false).
+Lemma truncated_detected : forall v p e t s, is_full (f_build s) = false ->
+  make_attempt v p e t s = (false, s, false).
 Proof. intros. unfold make_attempt. now rewrite H. Qed.
